@@ -147,6 +147,11 @@ def powNonneg (F : Fn α) : X α → X α → X α
 def nanToNum01 : X α → X α
   | nan => fin 0 | ninf => fin 0 | pinf => fin 1 | fin a => fin a
 
+/-- `np.nan_to_num(x, nan=a, neginf=b, posinf=c)` -/
+def nanToNum (x a b c : X α) : X α :=
+  match x with
+  | nan => a | ninf => b | pinf => c | fin v => fin v
+
 /-- `np.clip(x, lo, hi)` = `minimum(maximum(x, lo), hi)` -/
 def clip (x lo hi : X α) : X α := npmin (npmax x lo) hi
 
@@ -229,5 +234,6 @@ theorem ofBool_decide (p : Prop) [Decidable p] :
     (ofBool (decide p) : X α) = fin (if p then 1 else 0) := by
   by_cases h : p <;> simp [h, ofBool]
 @[simp] theorem nanToNum01_fin (a : α) : nanToNum01 (fin a) = fin a := rfl
+theorem nanToNum_01 (x : X α) : nanToNum x (fin 0) (fin 0) (fin 1) = nanToNum01 x := by cases x <;> rfl
 
 end X
